@@ -46,6 +46,11 @@ Lemma changes_cleared_only_by_successful_store :
   reg_single_changes_cleared_by_store = true.
 Proof. repeat split; reflexivity. Qed.
 
+(* Rename writes its rows (new name := old ID, old name := 0) with ONE storage call, the PutBatch
+   of store(); each store() issues exactly one PutBatch (anchored by the translator) *)
+Lemma rename_writes_rows_with_one_storage_call : reg_rename_atomic = true.
+Proof. reflexivity. Qed.
+
 (* ---- no collision, system range untouched, never at or above the limit: an invariant of every
    history, on any well-formed storage (starts with arbitrary schemas and enumeration orders,
    failures of the rows batch or of the version row in any registry - i.e. also the interruption
@@ -105,7 +110,36 @@ Theorem rename_moves_the_id :
   exists id, sm_get old (p_rows p) = Some id /\ skip cfg_q id = false /\
              sm_get new (p_rows (fst (rename cfg_q p old new f))) = Some id /\
              sm_get old (p_rows (fst (rename cfg_q p old new f))) = Some 0.
-Proof. exact (rename_moves_id cfg_q cfg_q_wf cfg_q_read eq_refl). Qed.
+Proof. exact (rename_moves_id cfg_q cfg_q_wf cfg_q_read eq_refl cfg_q_atomic). Qed.
+
+(* Rename is all or nothing: whichever of its storage calls fails (the rows batch, the version row,
+   the k-th write call) or after whichever the process stops, the stored rows are untouched or
+   completely renamed - so, by the theorems above, every later history of starts sees either the
+   old assignment or the new one, never both names with the ID and never neither *)
+Theorem rename_all_or_nothing :
+  forall p old new f,
+  rows_ok cfg_q (p_rows p) ->
+  p_rows (fst (rename cfg_q p old new f)) = p_rows p \/
+  (exists id, sm_get old (p_rows p) = Some id /\ skip cfg_q id = false /\
+     forall n, sm_get n (p_rows (fst (rename cfg_q p old new f))) =
+               if bytes_eq_dec n new then Some id else if bytes_eq_dec n old then Some 0 else sm_get n (p_rows p)).
+Proof. exact (Proofs.rename_all_or_nothing cfg_q cfg_q_wf cfg_q_read eq_refl cfg_q_atomic). Qed.
+
+(* ... and the side condition rename_writes_rows_with_one_storage_call is necessary: a Rename that
+   writes the two rows with two storage calls (both always attempted) leaves, when exactly one of
+   them fails, both names with the ID (A) or the ID with no name (B); a process stopping between
+   them gives (A) *)
+Definition cfg_two_puts : rcfg := mkCfg 255 65535 true false true false.
+Theorem half_rename_if_two_storage_calls :
+  let p := mkPers [([97], 256); ([98], 257)] 0 in
+  p_rows (fst (rename cfg_two_puts p [98] [100] (RnWrite 2))) = [([97], 256); ([98], 257); ([100], 257)] /\
+  p_rows (fst (rename cfg_two_puts p [98] [100] (RnStop 1))) = [([97], 256); ([98], 257); ([100], 257)] /\
+  p_rows (fst (rename cfg_two_puts p [98] [100] (RnWrite 1))) = [([97], 256); ([98], 0)] /\
+  ~ rows_ok cfg_two_puts (p_rows (fst (rename cfg_two_puts p [98] [100] (RnWrite 2)))).
+Proof.
+  vm_compute. repeat split. intros (_ & _ & Hinj). specialize (Hinj [98] [100] 257).
+  assert (H : [98] = [100]) by (apply Hinj; reflexivity). discriminate.
+Qed.
 
 (* ---- data written under an ID is decoded with the name it was written under ---- *)
 Theorem data_decoded_with_its_name :
@@ -149,7 +183,7 @@ Proof. exact (fun c p v names f p' v' Hwf Hr Hl => failed_store_keeps_changes c 
 (* ... and the hypothesis c_late = true is necessary: a registry that clears the counter before
    calling store() starts the application, after a failed rows batch and an in-process retry, on
    an ID that is not stored *)
-Definition cfg_early : rcfg := mkCfg 255 65535 true false false.
+Definition cfg_early : rcfg := mkCfg 255 65535 true false false true.
 Theorem unstored_ids_if_counter_cleared_before_store :
   exists p1 v1 p2 v2 m n id,
     prepare cfg_early (mkPers [] 0) (vol0 cfg_early) [n] RFailBatch = (p1, v1, RErr 1) /\
@@ -198,9 +232,21 @@ Proof. constructor. vm_compute. reflexivity. Qed.
 
 Example rename_nonvacuous :
   let p := s_q (fst (sys_run (fresh, proc0) [AStart [nA; nB] [] [] NoFault])) in
-  snd (rename cfg_q p nB nD RNoFault) = 0 /\
-  p_rows (fst (rename cfg_q p nB nD RNoFault)) = [(nA, 256); (nB, 0); (nD, 257)] /\
-  snd (rename cfg_q p nC nD RNoFault) = 5 /\ snd (rename cfg_q p nA nB RNoFault) = 5.
+  snd (rename cfg_q p nB nD RnNone) = 0 /\
+  p_rows (fst (rename cfg_q p nB nD RnNone)) = [(nA, 256); (nB, 0); (nD, 257)] /\
+  snd (rename cfg_q p nC nD RnNone) = 5 /\ snd (rename cfg_q p nA nB RnNone) = 5.
+Proof. vm_compute. repeat split. Qed.
+
+(* a Rename on rows without a version row issues two storage calls (rows batch, version row):
+   failing the first leaves everything, failing the second or stopping after the first leaves the
+   rows completely renamed (reported as a failure), stopping before the first leaves everything *)
+Example rename_all_or_nothing_nonvacuous :
+  let p := mkPers [(nA, 256); (nB, 257)] 0 in
+  rename cfg_q p nB nD (RnWrite 1) = (p, 1) /\
+  rename cfg_q p nB nD (RnWrite 2) = (mkPers [(nA, 256); (nB, 0); (nD, 257)] 0, 1) /\
+  rename cfg_q p nB nD (RnStop 1) = (mkPers [(nA, 256); (nB, 0); (nD, 257)] 0, 1) /\
+  rename cfg_q p nB nD (RnStop 0) = (p, 1) /\
+  rename cfg_q p nB nD RnNone = (mkPers [(nA, 256); (nB, 0); (nD, 257)] 1, 0).
 Proof. vm_compute. repeat split. Qed.
 
 (* the interruption between the rows and the version row of the first store, retried in the same
@@ -237,6 +283,8 @@ Print Assumptions successful_start_is_injective.
 Print Assumptions stored_ids_stable.
 Print Assumptions ids_same_on_every_later_start.
 Print Assumptions rename_moves_the_id.
+Print Assumptions rename_all_or_nothing.
+Print Assumptions half_rename_if_two_storage_calls.
 Print Assumptions data_decoded_with_its_name.
 Print Assumptions limit_is_error_stores_nothing.
 Print Assumptions no_limit_error_while_room.
